@@ -263,7 +263,7 @@ def rule_r2(ctx) -> RuleResult:
     opens.setdefault("<", set()).update(tagk)
     opens.setdefault("<pre>", set()).update({"PRE"} & tagk)
     # brackets handled by the encoder: cookie kind -> NodeKind pushed by magic_fn
-    marms = X.kind_arms(ctx.fn("parser.magic_fn"))
+    marms = X.kind_arms(ctx.fn("parser.magic_fn"), ctx=ctx)
     bracket = {"{{": "T", "{{{": "A", "[[": "L", "[": "E"}
     for lit, ck in bracket.items():
         ks = set()
